@@ -618,7 +618,10 @@ fn admin_mode(d: &Driver, req: &Value) -> Value {
             .filter(|i| held[*i].is_some())
             .map(|i| {
                 let st = if !started[i] { "idle" } else { match g[i].s { S::Blocked => "blocked", S::Done => "passed", _ => "running" } };
-                json!({"client": i, "status": st, "session_pool_paused": held[i].as_ref().unwrap().2.paused()})
+                let (db, user, pool) = held[i].as_ref().unwrap();
+                // what Client::get_pool() would answer at the session's next `pool = self.get_pool()`
+                json!({"client": i, "status": st, "session_pool_paused": pool.paused(),
+                       "pool_still_configured": pgcat::pool::get_pool(db, user).is_some()})
             })
             .collect();
         let mut pools: Vec<Value> = pgcat::pool::get_all_pools()
@@ -687,6 +690,13 @@ fn admin_mode(d: &Driver, req: &Value) -> Value {
             "observe" => json!({"ok": true}),
             _ => json!({"ok": false, "err": "unknown op"}),
         };
+        // wake-ups are delivered synchronously inside notify_waiters(): wait until every woken
+        // session has re-polled (no timing involved)
+        for i in 0..MAXC {
+            if started[i] {
+                d.sh.wait_until(i, |s| s.s == S::Blocked || s.s == S::Done, STEP_TIMEOUT_MS);
+            }
+        }
         // Client::handle: a session whose wait_paused() returned refreshes its pool
         for i in 0..MAXC {
             if started[i] && d.sh.m.lock().unwrap()[i].s == S::Done {
